@@ -332,6 +332,8 @@ class World:
             si.info["ragged"] = len(b.obj) != n
         if a.typ == "table" and not a.obj.cols():
             si.info["ragged"] = False        # a table without columns has nothing the new columns could disagree with
+        if form == "table" and not rhs.cols():
+            si.info["ragged"] = False        # ... and a table without columns adds nothing
         si.info["form"] = form
         si.info["left"] = snap(a.obj)
         si.info["right_cols"] = self._cols_of(rhs, form)
